@@ -17,6 +17,7 @@
 #include "bitserializer/types/std/deque.h"
 #include "bitserializer/types/std/bitset.h"
 #include "fuzz_common.h"
+#include "../common/kf61.h"
 
 #ifndef FZ_ARCH
 #define FZ_ARCH 0
@@ -125,31 +126,9 @@ void vf_write_seeds(const std::string& dir) {
 	}
 }
 
-// Recorded finding KF-61 (third-party): RapidJSON 1.1.0 as installed mis-handles, with kParseFullPrecisionFlag, decimal literals whose
-// magnitude is beyond the double range but passes its crude exponent check (assert / garbage value above ~1e308, out-of-bounds read of the
-// cached-powers table below ~1e-324).  libFuzzer stops at the first crash, so the class is excluded by construction (and counted) to let the
-// campaign go on; the witnesses in replay/C02/KF-61-*.json run with VF_NO_EXCL=1 on every check.
-static bool kf61_literal(const std::string& doc) {
-	static const bool off = getenv("VF_NO_EXCL") != nullptr; if (off) return false;
-	std::string t; t.reserve(doc.size()); for (char ch : doc) if (ch) t.push_back(ch);   // ASCII text of UTF-16 / UTF-32 documents
-	auto dig = [&](size_t i) { return i < t.size() && t[i] >= '0' && t[i] <= '9'; };
-	for (size_t i = 0; i < t.size();) {
-		if (!dig(i)) { i++; continue; }
-		size_t j = i; long intDigits = 0, fracZeros = 0; bool lead = true;
-		while (dig(j)) { if (t[j] != '0') lead = false; if (!lead) intDigits++; j++; }
-		if (j < t.size() && t[j] == '.') { j++; bool zeros = intDigits == 0; while (dig(j)) { if (zeros) { if (t[j] == '0') fracZeros++; else zeros = false; } j++; } }
-		long exp = 0;
-		if (j < t.size() && (t[j] == 'e' || t[j] == 'E')) { size_t k = j + 1; bool neg = false; if (k < t.size() && (t[k] == '+' || t[k] == '-')) { neg = t[k] == '-'; k++; } long e = 0; bool any = false; while (dig(k)) { if (e < 100000) e = e * 10 + (t[k] - '0'); k++; any = true; } if (any) { exp = neg ? -e : e; j = k; } }
-		const long mag = (intDigits > 0 ? intDigits : -fracZeros) + exp;
-		if (mag > 300 || mag < -300) return true;
-		i = j;
-	}
-	return false;
-}
-
 extern "C" int LLVMFuzzerTestOneInput(const uint8_t* data, size_t size) {
 	if (size < 2) return 0;
-	if (FZ_ARCH == JSON && kf61_literal(std::string(reinterpret_cast<const char*>(data) + 2, size - 2))) { vfz::note(data, size, false, "excluded:KF-61-json-literal-beyond-1e300"); return 0; }
+	if (FZ_ARCH == JSON && kf61::literal(std::string(reinterpret_cast<const char*>(data) + 2, size - 2))) { vfz::note(data, size, false, "excluded:KF-61-json-literal-beyond-1e300"); return 0; }
 	const uint8_t sel = data[0], cfg = data[1]; const std::string doc(reinterpret_cast<const char*>(data) + 2, size - 2);
 	SerializationOptions o; o.mismatchedTypesPolicy = (cfg & 1) ? MismatchedTypesPolicy::Skip : MismatchedTypesPolicy::ThrowError; o.overflowNumberPolicy = (cfg & 2) ? OverflowNumberPolicy::Skip : OverflowNumberPolicy::ThrowError;
 	o.utfEncodingErrorPolicy = (cfg & 4) ? Convert::Utf::UtfEncodingErrorPolicy::Skip : Convert::Utf::UtfEncodingErrorPolicy::ThrowError; if (FZ_ARCH == CSV && (sel & 0x80)) o.valuesSeparator = ';'; if (sel & 0x40) o.maxValidationErrors = 1;
